@@ -60,14 +60,16 @@ def anchors(prop):
 _scope_cache = {}
 EXTRA_OWNERS = {
     "C01": ("Network._init_morph_jaxley_spsolve", "Network._init_morph_jax_spsolve", "merge_cells", "remap_to_consecutive", "step_voltage_implicit_with_jaxley_spsolve", "step_voltage_implicit_with_jax_spsolve", "step_voltage_explicit",
-            "compute_axial_conductances"),
+            "compute_axial_conductances", "integrate", "build_init_and_step_fn"),
     "C07": ("nested_checkpoint_scan", "_inner_nested_scan", "build_init_and_step_fn"),
     "C06": ("build_init_and_step_fn",),
     "C02": ("Network._init_morph_jaxley_spsolve", "Cell._init_morph_jaxley_spsolve", "remap_index_to_masked", "merge_cells",
             "step_voltage_implicit_with_jaxley_spsolve", "step_voltage_implicit_with_jax_spsolve"),
     "C12": ("merge_cells", "remap_to_consecutive", "compute_children_and_parents", "Network._init_morph_jaxley_spsolve",
             "Network._init_morph_jax_spsolve", "remap_index_to_masked", "compute_children_in_level", "compute_parents_in_level"),
-    "C15": ("step_voltage_implicit_with_jaxley_spsolve", "step_voltage_implicit_with_jax_spsolve", "Module.get_all_parameters"),
+    # the scheme that is asked for (solver=...) must reach Module.step: integrate -> build_init_and_step_fn -> step_fn -> Module.step
+    "C15": ("step_voltage_implicit_with_jaxley_spsolve", "step_voltage_implicit_with_jax_spsolve", "Module.get_all_parameters",
+            "integrate", "build_init_and_step_fn"),
     "C11": ("Module._external_input",),
     # several stimuli / clamps on one module accumulate in the module's own containers
     "C08": ("Module._external_input", "Module._data_external_input"),
